@@ -14,7 +14,7 @@ are created by the root's first statements, i.e. at logical time t0.
 Statements
 ----------
 ["rec"]                 record logical seconds/beats seen
-["wait", d]             yield d
+["wait", d]             yield d   (d = "inf": yield float('inf'), wait for ever)
 ["spawn", r]            play routine r on its clock with its quant
 ["embed", r]            run routine r in place: yield from embed(Routine r)
 ["bundle", lat, els, "bind"]  flat messages through Server.default.bind()
@@ -131,6 +131,8 @@ def _gen_stmt(tp, feat, r, routines, n_clocks):
         d = tp.choice(DELTAS)
         if feat.get('odd_deltas') and tp.draw(5) == 0:
             d = tp.choice(ODD_DELTAS)
+        if feat.get('inf_wait') and tp.draw(14) == 0:
+            d = 'inf'              # wait for ever: the routine ends here
         return ['wait', d]
     if x < 11:
         return ['rec']
@@ -349,7 +351,7 @@ class Interp:
                 op = st[0]
                 if op == 'wait':
                     me.event('wait', rid, st[1])
-                    inval = yield st[1]
+                    inval = yield (INF if st[1] == 'inf' else st[1])
                     clock = inval[1]
                 elif op == 'embed':
                     me.event('embed', rid, st[1])
@@ -760,7 +762,7 @@ class Model:
                     rec['alt_beats'] = alt
                 self.recs.setdefault(rid, []).append(rec)
             elif op == 'wait':
-                d = st[1]
+                d = INF if st[1] == 'inf' else st[1]
                 if d != INF:
                     self.add(cname, t + d, sched_rid, None if alt is None
                              else alt + d)
